@@ -143,6 +143,31 @@ Definition hals_sweep (eps : F) (sp rg : option F) (UtM UtU : mat) (V : mat) : m
 Definition hals_nnls (eps : F) (sp rg : option F) (UtM UtU V : mat) (n : nat) : mat :=
   iter_n n (hals_sweep eps sp rg UtM UtU) V.
 
+(* the early stop of hals_nnls.  `rec_error += tl.norm(V - newV) ** 2`: V is r x n and newV has length n, NumPy broadcasts the
+   new row against EVERY row of V (as written in the code); rows with a zero diagonal entry contribute nothing *)
+Definition sqdist (a b : vec) : F := fsum Op (map2 (fun x y => (x [-] y) [*] (x [-] y)) a b).
+Definition hals_row_err (eps : F) (sp rg : option F) (UtM UtU : mat) (Ve : mat * F) (k : nat) : mat * F :=
+  let '(V, e) := Ve in
+  let V' := hals_row eps sp rg UtM UtU V k in
+  (V', if feqb Op (nth k (nth k UtU []) zero) zero then e
+       else e [+] fsum Op (map (fun row => sqdist row (nth k V' [])) V)).
+Definition hals_sweep_err (eps : F) (sp rg : option F) (UtM UtU V : mat) : mat * F :=
+  fold_left (hals_row_err eps sp rg UtM UtU) (seq 0 (length UtM)) (V, zero).
+(* for iteration in range(n_iter_max): sweep; if iteration == 0: rec_error0 = rec_error; if rec_error < tol * rec_error0: break
+   -> the number of sweeps executed *)
+Fixpoint hals_count_from (eps : F) (sp rg : option F) (UtM UtU : mat) (tol : F) (fuel it : nat) (e0 : F) (V : mat) : nat :=
+  match fuel with
+  | O => it
+  | S f => let '(V', e) := hals_sweep_err eps sp rg UtM UtU V in
+           let e0' := if Nat.eqb it 0 then e else e0 in
+           if fltb Op e (tol [*] e0') then S it else hals_count_from eps sp rg UtM UtU tol f (S it) e0' V'
+  end.
+Definition hals_count (eps : F) (sp rg : option F) (UtM UtU V : mat) (n_iter_max : nat) (tol : F) : nat :=
+  hals_count_from eps sp rg UtM UtU tol n_iter_max 0 zero V.
+(* hals_nnls(UtM, UtU, V, n_iter_max, tol, ...) with its own stopping rule *)
+Definition hals_nnls_auto (eps : F) (sp rg : option F) (UtM UtU V : mat) (n_iter_max : nat) (tol : F) : mat :=
+  hals_nnls eps sp rg UtM UtU V (hals_count eps sp rg UtM UtU V n_iter_max tol).
+
 (* fista: one iteration; state (x, x_update); beta = (momentum_old - 1)/momentum (data independent, irrational: a tape);
    lin = the linear part of the gradient (tl.dot(UtU, .) or multi_mode_dot(., UtU)) *)
 Definition fista_step (eps lr sp rg : F) (nonneg : bool) (lin : vec -> vec) (UtM : vec) (st : vec * vec) (beta : F) : vec * vec :=
@@ -161,6 +186,110 @@ Definition matvec (A : mat) (v : vec) : vec := map (fun row => dotv row v) A.
    n = executed iterations *)
 Definition active_set (support : nat -> vec -> vec) (x : vec) (n : nat) : vec :=
   iter_idx n 0 (fun it x => map (clip_min zero) (support it x)) x.
+
+(* ---------------------------------------------------------------- active_set_nnls, statement by statement
+   (control flow transcribed as in Model/Nnls.v of C13; here it carries the sign theorem and the executed correspondence of the
+   Tucker core path).  `solve A b` = tl.solve on the passive block, None when LAPACK raises (the code's `except:` path).
+   Boolean masks are lists of bool.  Result None = a Python exception escapes (min of an empty selection, LAPACK error outside the try). *)
+Section ActiveSetDetail.
+Variable solve : mat -> vec -> option vec.
+Variables (Utm : vec) (UtU : mat) (tol : F).
+Fixpoint select {A} (mask : list bool) (l : list A) : list A :=
+  match mask, l with true :: m', x :: l' => x :: select m' l' | false :: m', _ :: l' => select m' l' | _, _ => [] end.
+Definition sub_block (mask : list bool) : mat := map (select mask) (select mask UtU).
+(* support_vec[i] = passive_solution[#passive before i] on the passive set, 0 elsewhere *)
+Fixpoint scatter (mask : list bool) (ps : vec) : vec :=
+  match mask with
+  | [] => []
+  | true :: m' => match ps with p :: ps' => p :: scatter m' ps' | [] => zero :: scatter m' [] end
+  | false :: m' => zero :: scatter m' ps
+  end.
+Definition as_gradient (x : vec) : vec := map2 (fsub Op) Utm (matvec UtU x).
+Fixpoint argmax_from (best : F) (bi i : nat) (l : vec) : nat :=
+  match l with [] => bi | y :: l' => if fltb Op best y then argmax_from y i (S i) l' else argmax_from best bi (S i) l' end.
+Definition argmax (l : vec) : nat := match l with [] => 0 | y :: l' => argmax_from y 0 1 l' end.
+Definition vmin' (l : vec) : option F := match l with [] => None | y :: l' => Some (fold_left (fmin Op) l' y) end.
+Definition posmask (x : vec) : list bool := map (fun v => fltb Op zero v) x.
+Definition anyb (m : list bool) : bool := existsb (fun b => b) m.
+Definition negmask (m : list bool) : list bool := map negb m.
+Definition solve_scatter (passive : list bool) : option vec :=
+  match solve (sub_block passive) (select passive Utm) with Some ps => Some (scatter passive ps) | None => None end.
+(* the `for i in range(len(passive_set))` loop:  blocking = passive & (support <= 0); ratio = x / (x - s) on it; alpha = min ratio;
+   x = x + alpha (s - x); the coordinates attaining alpha are put exactly on the bound; passive = x > 0; re-solve; stop when the
+   passive block is empty or strictly positive *)
+Definition as_ratio (a b : F) : F := a [/] (a [-] b).
+Definition as_blocking (passive : list bool) (s : vec) : list bool :=
+  map (fun pb => fst pb && fleb Op (snd pb) zero) (combine passive s).
+Definition as_step (alpha : F) (passive : list bool) (x s : vec) : vec :=
+  map3 (fun (p : bool) a b => if p && fleb Op b zero && fleb Op (as_ratio a b) alpha then zero else a [+] (alpha [*] (b [-] a))) passive x s.
+Fixpoint as_inner (fuel : nat) (x s : vec) (passive : list bool) : option (vec * vec * list bool) :=
+  match fuel with
+  | O => Some (x, s, passive)
+  | S f =>
+    match vmin' (select (as_blocking passive s) (map2 as_ratio x s)) with
+    | None => None
+    | Some alpha =>
+      let x' := as_step alpha passive x s in
+      let passive' := posmask x' in
+      match solve_scatter passive' with
+      | None => None
+      | Some s' =>
+        if negb (anyb passive') then Some (x', s', passive')
+        else match vmin' (select passive' s') with
+             | Some mn => if fltb Op zero mn then Some (x', s', passive') else as_inner f x' s' passive'
+             | None => Some (x', s', passive')
+             end
+      end
+    end
+  end.
+(* one iteration of the outer loop up to (excluding) `x_vec = clip(support_vec, a_min=0)`: the support vector and the two masks *)
+Definition as_body (iter0 : bool) (x g : vec) (passive active : list bool) : option (vec * list bool * list bool) :=
+  let add_idx := negb iter0 || forallb (fun v => feqb Op v zero) x in
+  let passive1 := if add_idx then set_nth (argmax g) true passive else passive in
+  let active1 := if add_idx then set_nth (argmax g) false active else active in
+  let attempt :=
+    match solve_scatter passive1 with
+    | Some s => Some (x, s, passive1, active1)
+    | None =>
+      let x0 := map (fun _ => zero) x in
+      let p0 := posmask x0 in let a0 := negmask p0 in
+      let p1 := if anyb a0 then set_nth (argmax g) true p0 else p0 in
+      let a1 := if anyb a0 then set_nth (argmax g) false a0 else a0 in
+      match solve_scatter p1 with Some s => Some (x0, s, p1, a1) | None => None end
+    end in
+  match attempt with
+  | None => None
+  | Some (x1, s1, p1, a1) =>
+    match vmin' (select p1 s1) with
+    | None => None
+    | Some mn =>
+      if fleb Op mn zero then
+        match as_inner (length p1) x1 s1 p1 with
+        | Some (x2, s2, p2) => Some (s2, p2, negmask p2)
+        | None => None end
+      else Some (s1, p1, a1)
+    end
+  end.
+(* `if tl.any(active_set) != True or tl.max(x_gradient[active_set]) <= tol: break` *)
+Definition as_done (active : list bool) (g : vec) : bool :=
+  negb (anyb active) ||
+  match vmin' (map (fopp Op) (select active g)) with Some nm => fleb Op (fopp Op nm) tol | None => true end.
+Fixpoint as_loop (fuel : nat) (iter0 : bool) (x g : vec) (passive active : list bool) : option vec :=
+  match fuel with
+  | O => Some x
+  | S f =>
+    match as_body iter0 x g passive active with
+    | None => None
+    | Some (s2, p2, a2) =>
+      let x3 := map (clip_min zero) s2 in
+      let g3 := as_gradient x3 in
+      if as_done a2 g3 then Some x3 else as_loop f false x3 g3 p2 a2
+    end
+  end.
+(* active_set_nnls(Utm, UtU, x=x0, n_iter_max) *)
+Definition active_set_nnls (x0 : vec) (n_iter_max : nat) : option vec :=
+  as_loop n_iter_max true x0 (as_gradient x0) (posmask x0) (negmask (posmask x0)).
+End ActiveSetDetail.
 
 (* ---------------------------------------------------------------- non_negative_parafac (MU) *)
 Section Skeletons.
@@ -208,6 +337,10 @@ Definition non_negative_parafac_hals (utm utu : nat -> cp_state -> nat -> mat) (
   end.
 Definition cp_hals_utm (T : tensor F) (st : cp_state) (mode : nat) : mat := transp (mttkrp T (fst st) (snd st) mode).
 Definition cp_hals_utu (st : cp_state) (mode : nat) : mat := wscale (fst st) (gram_skip (length (fst st)) mode (snd st)).
+
+(* the number of inner sweeps of the real algorithm: hals_nnls(..., n_iter_max=100, tol=tol) (tol = 1e-8 unless exact) *)
+Definition cp_hals_inner (T : tensor F) (sps : list (option F)) (tol : F) (st : cp_state) (mode : nat) : nat :=
+  hals_count zero (nth mode sps None) None (cp_hals_utm T st mode) (cp_hals_utu st mode) (transp (nth mode (snd st) [])) 100 tol.
 
 (* initialize_cp: 'svd'/'random' -> abs of every factor (then optionally cp_normalize); weights = ones *)
 Definition initialize_cp_nn (R : nat) (raw : list mat) (normalize : bool) : cp_state :=
@@ -279,6 +412,14 @@ Definition tk_mu_denc (st : tk_state) : vec :=
   map (fun q => let c := unravel (shape core) q in
                 fsum Op (map (fun p => nth p (data core) zero [*] tk_kron_entry Gs None c (unravel (shape core) p)) (seq 0 (prod (shape core)))))
       (seq 0 (prod (shape core))).
+(* non_negative_tucker_hals: UtM = transpose(unfold(tensor_cross, mode) . unfold(core, mode)^T) and
+   UtU = unfold(core_cross, mode) . unfold(core, mode)^T are the same contractions as the MU numerator (transposed) and B^T B *)
+Definition tk_hals_utm (T : tensor F) (st : tk_state) (mode : nat) : mat := transp (tk_mu_num T st mode).
+Definition tk_hals_utu (st : tk_state) (mode : nat) : mat := tk_BtB st mode.
+Definition tk_hals_inner (T : tensor F) (sps : list (option F)) (tol : F) (st : tk_state) (mode : nat) : nat :=
+  hals_count zero (nth mode sps None) None (tk_hals_utm T st mode) (tk_hals_utu st mode) (transp (nth mode (snd st) [])) 100 tol.
+(* the linear part of the FISTA gradient of the core: multi_mode_dot(x, [F_k^T F_k]) on the flattened core *)
+Definition tk_core_lin (st : tk_state) (x : vec) : vec := tk_mu_denc (mk (shape (fst st)) x, snd st).
 (* initialize_tucker(non_negative=True): abs of every factor and of the core *)
 Definition initialize_tucker_nn (core : tensor F) (raw : list mat) : tk_state :=
   (mk (shape core) (map (fabs Op) (data core)), map abs_mat raw).
